@@ -12,6 +12,10 @@ in `Nat`).  The literals (`"*"`, `"W/"`, `","`, `'"'`), the stat field that feed
 If-None-Match decide alone?) come from `Gen.Conditional`, regenerated from the
 source on every run.
 
+History operations: rewrites and `touch` stamp `mtime = ctime = now`; the two `restore`
+operations replace the content while `mtime` is kept or set back and only `ctime` (which the
+kernel stamps on every change and which cannot be set) is `now`.
+
 The ETag is `sha1(f"{st_mtime}-{st_size}")`: a parameter `etagOf : mtime → size → text`
 of the model (property theorems assume it injective with quote/comma/space-free
 values; the driver instantiates it with a decimal rendering).
@@ -146,6 +150,9 @@ inductive Op where
   | rewriteSame (t : Nat)               -- new content, same size, mtime = ctime = t
   | rewriteOther (t size : Nat)         -- new content, another size
   | touch (t : Nat)                     -- same content, mtime = ctime = t
+  | restoreSame (t m : Nat)             -- new content, same size, mtime := m (kept or set back:
+                                        --   `cp -p`, `rsync -t`, backup restore, `os.utime`), ctime = t
+  | restoreOther (t m size : Nat)       -- new content, another size, mtime := m, ctime = t
   | request (ref : Nat) (inm : List Piece) (lm : Bool)
       -- request carrying validators of response `ref`: If-None-Match built from the template
       -- (`[]` = header absent), If-Modified-Since = its Last-Modified when `lm`
@@ -203,6 +210,8 @@ def modify (f : File) : Op → File
   | .rewriteSame t => { f with version := f.version + 1, mtime := t, ctime := t }
   | .rewriteOther t s => { version := f.version + 1, size := s, mtime := t, ctime := t }
   | .touch t => { f with mtime := t, ctime := t }
+  | .restoreSame t m => { f with version := f.version + 1, mtime := m, ctime := t }
+  | .restoreOther t m s => { version := f.version + 1, size := s, mtime := m, ctime := t }
   | .request _ _ _ => f
 
 /-- run a history: current file, trace so far, remaining operations ↦ full trace -/
@@ -229,6 +238,9 @@ def parseOp (tok : String) : Option Op :=
   | ["ws", t] => t.toNat?.map Op.rewriteSame
   | ["wo", t, s] => (t.toNat?).bind fun t => s.toNat?.map fun s => Op.rewriteOther t s
   | ["to", t] => t.toNat?.map Op.touch
+  | ["rs", t, m] => (t.toNat?).bind fun t => m.toNat?.map fun m => Op.restoreSame t m
+  | ["ro", t, m, s] =>
+    (t.toNat?).bind fun t => (m.toNat?).bind fun m => s.toNat?.map fun s => Op.restoreOther t m s
   | ["pl"] => some Op.plain
   | ["rq", j, lm, tpl] => j.toNat?.map fun j => Op.request j (parsePieces tpl) (lm == "1")
   | _ => none
